@@ -748,3 +748,80 @@ Section Bridge.
     destruct (tsum_skip b_im gs TZero) as [im|]; reflexivity.
   Qed.
 End Bridge.
+
+(** * maybe_fix_sim_time_roundoff as the last filter: the clock stays on the dt lattice *)
+Section FixTimeThm.
+  Context {F : Type} {o : Ops F} {Oc : OrdFieldC o}.
+  Add Field FFx : (field_c : FieldTh o).
+  Hypothesis ZM : ZMorph o.
+
+  (** rounding to the nearest integer (any tie rule) *)
+  Definition nearest (rnd : F -> Z) : Prop :=
+    forall x n, flt (fofZ n - ihalf) x -> flt x (fofZ n + ihalf) -> rnd x = n.
+
+  Variables (rnd : F -> Z) (dt cs : F).
+  Hypothesis Hrnd : nearest rnd.
+  Hypothesis Hdt : dt <> 0.
+  (** the scheme advances the clock by dt * cs with |cs - 1| < 1/2 (cs = 1 up to 1e-12) *)
+  Hypothesis Hlo : flt (1 - ihalf) cs.
+  Hypothesis Hhi : flt cs (1 + ihalf).
+
+  Lemma fix_time_snaps (n : Z) : fix_time rnd dt (dt * fofZ n + dt * cs) = dt * fofZ (n + 1)%Z.
+  Proof.
+    unfold fix_time. f_equal. f_equal. apply Hrnd.
+    - replace ((dt * fofZ n + dt * cs) / dt) with (cs + fofZ n) by (field; exact Hdt).
+      rewrite (zm_add _ ZM), (zm1 _ ZM).
+      replace (fofZ n + 1 - ihalf) with (1 - ihalf + fofZ n) by ring. now apply flt_add.
+    - replace ((dt * fofZ n + dt * cs) / dt) with (cs + fofZ n) by (field; exact Hdt).
+      rewrite (zm_add _ ZM), (zm1 _ ZM).
+      replace (fofZ n + 1 + ihalf) with (1 + ihalf + fofZ n) by ring. now apply flt_add.
+  Qed.
+
+  (** whole trajectories: any term of weight dt*cs, any array filters, then the
+      clean-up; from n0*dt (n0 an integer of either sign) the time after k steps is
+      (n0 + k)*dt exactly, for every k *)
+  Theorem fix_time_trajectory {V : Type} {vo : VSp F V} (Fx G : V -> V) (Ginv : F -> V -> V)
+          (t : stepterm F) (fs : list (V -> V)) (n0 : Z) k (u : V * F) :
+    consistent t (dt * cs) -> snd u = dt * fofZ n0 ->
+    snd (iter k (with_filters (step_of (vo := TimedSp vo) (timed_F 1 Fx) (timed_G G) (timed_Ginv Ginv) t)
+                              (map (fun f => rk_filter (timed_filter f)) fs
+                                   ++ [rk_filter (fix_time_filter rnd dt)])) u)
+    = dt * fofZ (n0 + Z.of_nat k)%Z.
+  Proof.
+    intros Hc. revert n0 u. induction k as [|k IH]; intros n0 u Hu.
+    - cbn [iter]. rewrite Hu. f_equal. f_equal. lia.
+    - cbn [iter]. rewrite (IH (n0 + 1)%Z).
+      + f_equal. f_equal. lia.
+      + unfold with_filters. rewrite fold_left_app. cbn [fold_left rk_filter fix_time_filter snd].
+        pose proof (sim_time_advances Fx G Ginv 1 t (dt * cs) fs 1 u Hc) as H1.
+        cbn [iter] in H1. unfold with_filters in H1. rewrite H1, Hu.
+        replace (dt * fofZ n0 + lit 1 * (dt * cs * 1)) with (dt * fofZ n0 + dt * cs) by (cbn [lit]; ring).
+        apply fix_time_snaps.
+  Qed.
+End FixTimeThm.
+
+(** the exact model of jnp.round (round half to even) rounds to the nearest integer *)
+From Coq Require Import Lqa.
+Lemma zq_le a b : (inject_Z a < inject_Z b + 1)%Q -> (a <= b)%Z.
+Proof.
+  intros H. change 1%Q with (inject_Z 1) in H. rewrite <- inject_Z_plus, <- Zlt_Qlt in H. lia.
+Qed.
+
+Lemma rhe_nearest (x : Q) (n : Z) :
+  (inject_Z n - (1 # 2) < x)%Q -> (x < inject_Z n + (1 # 2))%Q -> rhe x = n.
+Proof.
+  intros H1 H2. unfold rhe.
+  pose proof (Qround.Qfloor_le x) as A. pose proof (Qround.Qlt_floor x) as B.
+  set (f := Qround.Qfloor x) in *. rewrite inject_Z_plus in B. change (inject_Z 1) with 1%Q in B.
+  destruct (Qcompare_spec (x - inject_Z f) (1 # 2)) as [E|E|E].
+  - exfalso.
+    assert (C1 : (inject_Z n < inject_Z f + 1)%Q) by lra.
+    assert (C2 : (inject_Z f < inject_Z n)%Q) by lra.
+    apply zq_le in C1. rewrite <- Zlt_Qlt in C2. lia.
+  - assert (C1 : (inject_Z n < inject_Z f + 1)%Q) by lra.
+    assert (C2 : (inject_Z f < inject_Z n + 1)%Q) by lra.
+    apply zq_le in C1. apply zq_le in C2. lia.
+  - assert (C1 : (inject_Z f < inject_Z n)%Q) by lra.
+    assert (C2 : (inject_Z n < inject_Z (f + 1) + 1)%Q) by (rewrite inject_Z_plus; change (inject_Z 1) with 1%Q; lra).
+    rewrite <- Zlt_Qlt in C1. apply zq_le in C2. lia.
+Qed.
